@@ -23,6 +23,14 @@ class Gen:
         self.maxprogs = maxprogs
         self.stmts_rng = stmts
         self.looponly = looponly
+        # size profile: mostly small; sometimes wide (many ports / arguments), deep (nesting 4) or long (bodies of 40-120 statements,
+        # so that jump offsets, frame sizes and register numbers leave the single-digit range)
+        q = rnd.random()
+        self.profile = 'small' if q < 0.85 else rnd.choice(['wide', 'deep', 'long'])
+        self.maxdepth = 4 if self.profile == 'deep' else 2
+        self.maxparams = 6 if self.profile == 'wide' else 3
+        if self.profile == 'long':
+            self.stmts_rng = (40, 120)
         # identifier pools: mostly the plain one; sometimes names that differ only in case, or by a prefix / leading zero
         k = rnd.random()
         self.twins = k >= 0.7
@@ -46,7 +54,7 @@ class Gen:
             return ('inc', r.choice(self.vars), self.num() if self.big else r.randint(0, 3))
         if k < 0.8:
             return ('dec', r.choice(self.vars), self.num() if self.big else r.randint(0, 3))
-        if progs and depth < 2:
+        if progs and depth < self.maxdepth:
             f = r.choice(progs)
             return ('call', f[0], [self.val(progs, depth + 1) for _ in f[1]])
         return ('var', r.choice(self.vars))
@@ -71,9 +79,9 @@ class Gen:
                 continue
             if k < 0.4:
                 out.append(['assign', r.choice(self.vars), self.val(progs)])
-            elif k < 0.52 and depth < 2:
+            elif k < 0.52 and depth < self.maxdepth:
                 out.append(['loop', r.choice(self.vars), self.stmts(progs, labels, depth + 1, r.randint(1, 3))])
-            elif k < 0.62 and depth < 2:
+            elif k < 0.62 and depth < self.maxdepth:
                 v = r.choice(self.vars)
                 body = self.stmts(progs, labels, depth + 1, r.randint(1, 2)) + [['assign', v, ('dec', v, 1)]]
                 out.append(['while', v, body])
@@ -121,7 +129,7 @@ class Gen:
             if r.random() < 0.12:
                 params = None
             else:
-                params = r.sample(self.vars, r.randint(1, 3))
+                params = r.sample(self.vars + (['p%d' % j for j in range(4)] if self.maxparams > 3 else []), r.randint(1, self.maxparams))
             out = r.choice([None] + self.vars) if params is not None else None
             if params and r.random() < 0.2:
                 # tight frame: the body only mentions the ports, so the frame is no larger than the port list
@@ -304,6 +312,16 @@ def canonical(defs, main, rnd=None, alone=0.5, pv=None, loopfmt=None):
     return '\n'.join(lines) + '\n', L
 
 
+def twin_name(existing, fresh, rnd, main='m'):
+    """a file name: usually `fresh`; sometimes one that differs from an existing name (or the main file's) only in letter case"""
+    if rnd.random() < 0.25:
+        pool = [n for n in list(existing) + [main] if n.swapcase() not in existing and n.swapcase() != main and n.swapcase() != n]
+        if pool:
+            b = rnd.choice(pool)
+            return rnd.choice([b.swapcase(), b.capitalize() if b.capitalize() != b and b.capitalize() not in existing else b.swapcase()])
+    return fresh
+
+
 def split_files(ts, rnd, maxsplits=3):
     """spread a token list over included files (any token range may move)"""
     files, cur, fid = {}, list(ts), 0
@@ -312,7 +330,7 @@ def split_files(ts, rnd, maxsplits=3):
             break
         a = rnd.randrange(0, len(cur) - 1)
         b = rnd.randrange(a + 1, len(cur) + 1)
-        name = 'f%d' % fid
+        name = twin_name(files, 'f%d' % fid, rnd)
         fid += 1
         files[name] = cur[a:b]
         cur = cur[:a] + ['include "%s"' % name] + cur[b:]
@@ -556,6 +574,42 @@ def reentry_program(rnd):
     return number([callee], body)
 
 
+def backjump_program(rnd):
+    """straight-line code (outside every LOOP / WHILE) that is executed again through a backward GOTO: a variable
+    is (re)initialised at its first textual mention, changed, observed, and the block is repeated a fixed number
+    of times — in the main script or inside a called program; initialisers: literal 0 / 1, an unmentioned
+    variable, a truncated subtraction"""
+    L = rnd.randint(2, 4)
+
+    def block(pfx):
+        v, s_, i, z = pfx + 'v', pfx + 's', pfx + 'i', pfx + 'z'
+        init = rnd.choice([('num', 0), ('num', 0), ('num', 1), ('var', z), ('dec', v, 9), ('num', 0)])
+        pre = rnd.choice([[], [['assign', s_, ('num', rnd.randint(0, 2))]], [['assign', i, ('num', 0)]]])
+        b = pre + [['label', pfx + 'ltop'],
+                   ['assign', v, init],
+                   ['assign', v, ('inc', v, rnd.randint(1, 3))]]
+        if rnd.random() < 0.5:
+            b.append(['assign', v, ('inc', v, rnd.randint(1, 2))])
+        b += [['assign', s_, ('inc', s_, 1)] if rnd.random() < 0.3 else ['assign', s_, ('var', v)],
+              ['assign', i, ('inc', i, 1)],
+              ['if', i, L, pfx + 'lout'],
+              ['goto', pfx + 'ltop'],
+              ['label', pfx + 'lout'],
+              ['assign', pfx + 't', ('var', v)]]
+        return b
+    defs = []
+    main = []
+    if rnd.random() < 0.5:
+        body = block('q')
+        body.append(['assign', 'r', ('var', 'qs')])
+        defs.append(('g', ['a'], 'r', body))
+        main.append(['assign', 'x1', ('call', 'g', [('num', rnd.randint(0, 3))])])
+    main += block('')
+    if defs and rnd.random() < 0.5:
+        main.append(['assign', 'x2', ('call', 'g', [('var', 'v')])])
+    return number(defs, main)
+
+
 def canonical_multi(defs, main, rnd):
     """one statement per line, program definitions optionally moved to their own included files.
     Returns (files dict name->text, L) with L values (file, line)."""
@@ -564,7 +618,7 @@ def canonical_multi(defs, main, rnd):
     for i, (n, params, o, b) in enumerate(defs):
         text, l1 = canonical([(n, params, o, b)], [], rnd)
         if rnd.random() < 0.6:
-            fname = 'lib%d' % i
+            fname = twin_name(files, 'lib%d' % i, rnd)
             # a few blank / comment lines in front move the line numbers around
             pad = rnd.randint(0, 3)
             files[fname] = '// c\n' * pad + text
@@ -572,6 +626,20 @@ def canonical_multi(defs, main, rnd):
                 key = ('hdr', i) if k == ('hdr', 0) else (('pend', i) if k == ('pend', 0) else k)
                 L[key] = (fname, v + pad)
             mainlines.append('include "%s"' % fname)
+        elif rnd.random() < 0.4:
+            # the definition spans a file boundary: header in the main file, body and END in an included file
+            fname = twin_name(files, 'body%d' % i, rnd)
+            lines = text.rstrip('\n').split('\n')
+            pad = rnd.randint(0, 2)
+            files[fname] = '// b\n' * pad + '\n'.join(lines[1:]) + '\n'
+            base = len(mainlines)
+            mainlines.append(lines[0])
+            mainlines.append('include "%s"' % fname)
+            for k, v in l1.items():
+                if k == ('hdr', 0):
+                    L[('hdr', i)] = ('m', base + 1)
+                else:
+                    L[('pend', i) if k == ('pend', 0) else k] = (fname, v - 1 + pad)
         else:
             base = len(mainlines)
             for ln in text.rstrip('\n').split('\n'):
